@@ -202,6 +202,48 @@ func (s *NumRangeShard) EqualStart(key interface{}, index int) bool {
 	return s.Shards[index].Start == v
 }
 
+// period units for isPeriodStart
+const (
+	periodYear = iota
+	periodMonth
+	periodDay
+)
+
+// isPeriodStart reports whether key is exactly the first instant of its year / month / day.
+// Anything that cannot be interpreted (unknown type or format) is reported as "not the start", which only
+// makes range pruning keep one more table.
+func isPeriodStart(key interface{}, unit int) bool {
+	var tm time.Time
+	switch val := key.(type) {
+	case int:
+		tm = time.Unix(int64(val), 0)
+	case uint64:
+		tm = time.Unix(int64(val), 0)
+	case int64:
+		tm = time.Unix(val, 0)
+	case string:
+		var err error
+		if tm, err = time.Parse("2006-01-02 15:04:05", val); err != nil {
+			if tm, err = time.Parse("2006-01-02", val); err != nil {
+				return false
+			}
+		}
+	default:
+		return false
+	}
+	if tm.Hour() != 0 || tm.Minute() != 0 || tm.Second() != 0 || tm.Nanosecond() != 0 {
+		return false
+	}
+	switch unit {
+	case periodYear:
+		return tm.Month() == time.January && tm.Day() == 1
+	case periodMonth:
+		return tm.Day() == 1
+	default:
+		return true
+	}
+}
+
 type DateYearShard struct {
 }
 
@@ -237,7 +279,7 @@ func (s *DateYearShard) EqualStart(key interface{}, index int) bool {
 		return false
 	}
 
-	return numYear == index
+	return numYear == index && isPeriodStart(key, periodYear)
 }
 
 type DateMonthShard struct {
@@ -298,7 +340,7 @@ func (s *DateMonthShard) EqualStart(key interface{}, index int) bool {
 		return false
 	}
 
-	return numYear == index
+	return numYear == index && isPeriodStart(key, periodMonth)
 }
 
 type DateDayShard struct {
@@ -359,7 +401,7 @@ func (s *DateDayShard) EqualStart(key interface{}, index int) bool {
 		return false
 	}
 
-	return numYear == index
+	return numYear == index && isPeriodStart(key, periodDay)
 }
 
 type DefaultShard struct {
